@@ -446,6 +446,32 @@ func Replay(harnesses map[string]func()) (status, detail string) {
 			return "reproduced", fmt.Sprintf("assertion %q fails natively; missing draws: %v", f, Missing)
 		}
 	}
+	// a schedule counterexample whose interleaving the cooperative scheduler could not enforce:
+	// run the same harness with the model's values under the Go runtime's own scheduling
+	if _, sched := cex.Values["$sched#0"]; sched && !freeRun {
+		firstDetail := fmt.Sprintf("controlled schedule: failed natively %v, reached %v", Failed, Reached)
+		t0 := time.Now()
+		for iter := 1; iter <= 300 && time.Since(t0) < 8*time.Second; iter++ {
+			Reset()
+			load()
+			freeRun = true
+			failedHere := false
+			func() {
+				defer func() { recover() }()
+				h()
+			}()
+			freeRun = false
+			for _, f := range Failed {
+				if f == cex.Label {
+					failedHere = true
+				}
+			}
+			if failedHere {
+				return "reproduced", fmt.Sprintf("assertion %q fails natively under the Go scheduler (free-running threads, iteration %d); %s", cex.Label, iter, firstDetail)
+			}
+		}
+		return "not-reproduced", fmt.Sprintf("assertion %q holds natively in the controlled schedule and in up to 300 free-running runs (%s)", cex.Label, firstDetail)
+	}
 	return "not-reproduced", fmt.Sprintf("assertion %q holds natively (failed natively: %v, missing draws: %v, reached: %v, trace: %v)", cex.Label, Failed, Missing, Reached, Trace)
 }
 
